@@ -11,7 +11,7 @@ use crate::pool::{Acc, Engine, Violation};
 use crate::prng::{fold, Rng};
 use crate::sources::*;
 use crate::gram::Need;
-use crate::tok::{Tok, CHARS};
+use crate::tok::Tok;
 use crate::val::{Outcome, Sp};
 use chumsky::input::{Input, IoInput, IterInput, Stream};
 use chumsky::span::SimpleSpan;
@@ -166,6 +166,10 @@ pub struct Env {
     /// reference of a byte case (same text as `&str` and as `&[u8]`).
     #[serde(default)]
     pub ascii_chars: bool,
+    /// Character kinds: the eight abstract symbols stand for the code points of `tok::ALT_CHARS`
+    /// (U+FEFF, NUL, U+FFFD, U+10FFFF, DEL, U+0080, U+D7FF, U+E000).
+    #[serde(default)]
+    pub alt_chars: bool,
 }
 
 #[derive(Clone, Debug, Default)]
@@ -219,10 +223,12 @@ pub fn run_kind(g: &G, syms: &[u8], kind: Kind, mode: PMode, env: &Env, budget: 
     impl Drop for AsciiGuard {
         fn drop(&mut self) {
             crate::tok::set_ascii_chars(false);
+            crate::tok::set_alt_chars(false);
         }
     }
     let _ascii = AsciiGuard;
     crate::tok::set_ascii_chars(env.ascii_chars && kind.is_char());
+    crate::tok::set_alt_chars(env.alt_chars && !env.ascii_chars && kind.is_char());
     let outcome = if !kind.is_char() {
         let toks: Vec<u8> = syms.iter().map(|s| u8::from_sym(*s)).collect();
         let rc = Rc::new(toks.clone());
@@ -401,7 +407,7 @@ pub fn rebase(ref_kind: Kind, kind: Kind, syms: &[u8], env: &Env) -> Box<dyn Fn(
         Kind::Str | Kind::CtxStr | Kind::MapSpanStr => {
             let mut off = vec![0usize];
             for s in syms {
-                off.push(off.last().unwrap() + CHARS[*s as usize % CHARS.len()].len_utf8());
+                off.push(off.last().unwrap() + crate::tok::char_for(*s, env.alt_chars).len_utf8());
             }
             Box::new(move |s: Sp| {
                 let (a, b) = (off[s.1.min(off.len() - 1)], off[s.2.min(off.len() - 1)]);
@@ -969,7 +975,12 @@ impl SrcSim {
         let need = gram::needs_caps(g);
         let ref_kind = Kind::reference_for(&need, is_char);
         let (mspans, eoi) = gen_mspans(rng, syms.len());
-        let base_env = Env { policy: ReaderPolicy::full(), reader_seed: 0, trace: None, hint: Hint::Exact, mspans, eoi, ascii_chars: false };
+        // a quarter of the character cases use the alternative code points for the abstract symbols
+        let alt_chars = is_char && rng.chance(1, 4);
+        if alt_chars {
+            acc.inc("cases.char_inputs_with_special_code_points(U+FEFF, NUL, U+FFFD, U+10FFFF, ...)");
+        }
+        let base_env = Env { policy: ReaderPolicy::full(), reader_seed: 0, trace: None, hint: Hint::Exact, mspans, eoi, ascii_chars: false, alt_chars };
         // byte cases: every third also feeds the same ASCII text through the character kinds (text
         // parsers always). Not with Text(7): `newline()` does not exist for byte inputs, the builder
         // substitutes another parser there.
@@ -1416,7 +1427,7 @@ impl Engine for SrcSim {
 pub fn replay(rp: &Replay) -> Option<(String, Outcome, Outcome)> {
     let is_char = rp.kind.is_char() && !rp.env.ascii_chars;
     let ref_kind = Kind::reference_for(&gram::needs_caps(&rp.grammar), is_char);
-    let base_env = Env { policy: ReaderPolicy::full(), reader_seed: 0, trace: None, hint: Hint::Exact, mspans: rp.env.mspans.clone(), eoi: rp.env.eoi, ascii_chars: false };
+    let base_env = Env { policy: ReaderPolicy::full(), reader_seed: 0, trace: None, hint: Hint::Exact, mspans: rp.env.mspans.clone(), eoi: rp.env.eoi, ascii_chars: false, alt_chars: rp.env.alt_chars };
     if let Some(k0) = rp.against {
         let a = run_kind(&rp.grammar, &rp.syms, k0, rp.mode, &rp.env, (REF_TICK_CAP * 16, u64::MAX, u64::MAX));
         let gb = if rp.twin { gram::by_value_twin(&rp.grammar) } else { rp.grammar.clone() };
